@@ -412,8 +412,10 @@ def _surface_case(case, ctx):
         evname = _install(obj, ev)
         fe = dict(evaluator=evname, installed=(ev != 'default'))
         if 'derivs' in parts:
+            # the constructor's own evaluator object is the same class as the first installed family: extreme orders only
+            ev_orders = orders if (ev != 'default' or case.get('orders')) else sorted({0, 1, 2, maxo})
             for prm in plist:
-                for order in orders:
+                for order in ev_orders:
                     f = dict(pf[prm], order=order, order_gt_degree_u=order > pu, order_gt_degree_v=order > pv,
                              order_gt_degree=order > min(pu, pv), **fe)
                     rc = dict(case, params=[[prm[0]], [prm[1]]], evaluators=[ev], orders=[order], parts=['derivs'])
